@@ -284,8 +284,15 @@ def alt_inputs(c, i):
     for k, v in c.get("vars", {}).items():
         m = re.fullmatch(r"(.*?)(-?\d+)", v)
         av[k] = (m.group(1) + str(int(m.group(2)) + 1 + i % 5)) if m and "/" not in v and "%" not in v else v
+    swap = {"USD": "COIN", "COIN": "USD", "EUR/2": "EUR/2"} if i % 2 else {}
+    if swap:
+        # the second run also moves to another asset (what was cached or memoised for the first run's asset is stale)
+        for k, v in list(av.items()):
+            parts = v.split(" ")
+            if parts[0] in swap and len(parts) <= 2:
+                av[k] = " ".join([swap[parts[0]]] + parts[1:])
     c["altVars"] = av
-    c["altBalances"] = {a: {k: str(int(v) + 3 + i % 7) for k, v in m.items()} for a, m in c.get("balances", {}).items()}
+    c["altBalances"] = {a: {swap.get(k, k): str(int(v) + 3 + i % 7) for k, v in m.items()} for a, m in c.get("balances", {}).items()}
 
 
 def run_model(cases, gos):
